@@ -5,7 +5,8 @@ EXTENDS Frag, Json
 
 MC_Frames == {"A", "B", "C", "U"}
 MC_NFrag == [f \in MC_Frames |-> CASE f = "A" -> 2 [] f = "B" -> 3 [] f = "C" -> 2 [] f = "U" -> 1]
-MC_Wid == [f \in MC_Frames |-> CASE f = "A" -> 1 [] f = "B" -> 2 [] f = "C" -> 1 [] f = "U" -> 4]
+(* U (one fragment) shares its wire id with B (three fragments) *)
+MC_Wid == [f \in MC_Frames |-> CASE f = "A" -> 1 [] f = "B" -> 2 [] f = "C" -> 1 [] f = "U" -> 2]
 MC_Junk == { [kind |-> "short"],
              [kind |-> "total0",  id |-> 1, total |-> 0,   seq |-> 0,   pl |-> <<"junk", 0>>],
              [kind |-> "seqge",   id |-> 1, total |-> 2,   seq |-> 2,   pl |-> <<"junk", 0>>],
